@@ -6,7 +6,7 @@ set -u
 export GOFLAGS=-mod=mod GOPROXY=off GOSUMDB=off GOTOOLCHAIN=local
 W=/tmp/mutwt
 if [ ! -d $W ]; then git -C /repo worktree add --detach $W HEAD >/dev/null 2>&1 || exit 3; fi
-git -C $W checkout -q -- . ; git -C $W clean -fdq
+git -C $W checkout -q -- . ; git -C $W clean -fdq; git -C $W checkout -q --detach $(git -C /repo rev-parse HEAD)
 if [ "$1" = "-e" ]; then sed -i -E "$2" "$W/$3"; shift 3; else git -C $W apply "$1" || { echo "PATCH DOES NOT APPLY"; exit 3; }; shift; fi
 [ "$1" = "--" ] && shift
 git -C $W diff --stat | tail -1
